@@ -126,7 +126,9 @@ def do_run(args):
     }
     seen_sigs = set()
     deadline = _monotonic() + args.budget if args.budget else None
-    run_cap = args.run_wall_cap
+    # backstop behind the per-step cap of core.execute (which turns a hang into a `hang` violation with a replay file):
+    # a hang inside C code that no signal handler can interrupt ends the worker here, as a harness error
+    run_cap = max(args.run_wall_cap, 1.5 * float(os.environ.get("VERIF_STEP_CAP_S", "") or world_cls.STEP_CAP))
     for idx in indices_for(args.worker, args.jobs, args.nhash):
         if args.count is not None and idx >= args.count:
             break
